@@ -55,6 +55,33 @@ def entropyBlock (ps : Params) (S : Int) : Int := proofHeight ps S - 1
 /-- What the author of a transaction included in block `H` can have read: blocks below `H`. -/
 def knownAt (H blk : Int) : Bool := decide (blk < H)
 
+/-! ## `Context.GetPrevBlockHash` (types/context.go) -/
+
+/-- Where `GetPrevBlockHash(h)` takes its answer from. -/
+inductive HashSource where
+  | header    -- `h == c.BlockHeight()`: the header of the block being processed
+  | cache     -- the cached context of height `h`
+  | store     -- the block meta of height `h` in the block store
+  | notFound  -- `block at height not found`
+deriving DecidableEq, Repr
+
+/-- `Context.GetPrevBlockHash(h)` at context height `ctxH`; `cached x` / `stored x`: the context
+cache / the block store has an entry for height `x`.  In every case the value is the `LastBlockId`
+hash of header `h` (the `ConsensusHash` when that is nil), i.e. the hash of block `h − 1`. -/
+def prevBlockHashSource (ctxH h : Int) (cached stored : Int → Bool) : HashSource :=
+  if h = ctxH then .header
+  else if cached h then .cache
+  else if stored h then .store
+  else .notFound
+
+/-- While block `ctxH` is being processed only lower heights can be cached or stored. -/
+def HonestWorld (ctxH : Int) (cached stored : Int → Bool) : Prop :=
+  (∀ x, cached x = true → x < ctxH) ∧ (∀ x, stored x = true → x < ctxH)
+
+/-- `getPseudorandomIndex` at context height `H`: where the selecting hash comes from. -/
+def indexSource (ps : Params) (H S : Int) (cached stored : Int → Bool) : HashSource :=
+  prevBlockHashSource H (proofHeight ps S) cached stored
+
 /-! ## Leaf selection -/
 
 def ascii (s : String) : Bytes := s.toUTF8.toList
